@@ -42,6 +42,7 @@ THEOREMS = [
     "Ural.FpReparse.fp_tuple",
     "Ural.FpReparse.fp_reparse",
     "Ural.C07.pyHostname_eq",
+    "Ural.C07.fingerprint_pyHostname_eq",
     "Ural.C07.hostOfModel_of_parseUrl",
     "Ural.C07.upRel_upperQuoted",
     "Ural.C07.grammar_decomp",
@@ -59,6 +60,7 @@ THEOREMS = [
     "Ural.Props.C07.canonicalized_stems_factor",
     "Ural.Props.C07.normalized_hostname_string",
     "Ural.Props.C07.fingerprinted_hostname_string",
+    "Ural.Props.C07.fingerprinted_hostname_agrees_model",
     "Ural.Props.C07.bare_hostClass",
     "Ural.Props.C07.bare_hostname_string",
 ]
@@ -92,9 +94,9 @@ EXHAUSTIVE = {}
 TRUSTED = [
     "Lean 4 kernel; axioms of every listed theorem audited to be within {propext, Classical.choice, Quot.sound}",
     "hand-written Lean models Model/Normalize.lean, Model/Fingerprint.lean (shared, C03-C07), Model/NormalizeUrl.lean, Model/FingerprintUrl.lean, Model/C06Netloc.lean (the two URL functions as whole-string functions with the modelled parser / accessors inside), Model/CanonicalizeUrl.lean, Model/Lru.lean (C12/C13), Model/LruVariants.lean and Model/C07.lean (stem variants, safe_urlsplit, get_hostname, hostname component of the URL functions), tied to the code by differential execution on every run",
-    "CPython's urlsplit and SplitResult accessors: (a) string-level theorems (Props/C07Whole.lean: normalized_hostname_string, fingerprinted_hostname_string, bare_hostname_string, stems_agree_norm, stems_agree_fp, the *_stems_factor theorems) — the parser is the hand model Py/UrlSplit.lean + Py/UrlAccessors.lean + Py/Split.lean on BOTH sides of every equation (inside normalize_url / fingerprint_url, inside the helpers, and where the result string is parsed again after ensure_protocol); the two models of .hostname are proved equal (pyHostname_eq); the hand parser is compared with CPython on every run (c07_get_hostname, c07_model_host, c07_helper_model, c07_url_stems with model_parser, c07_stems with model_parser, normalize_whole, fingerprint_whole here; parse_url streams of C01/C02), not proved equal to it; its stated domain (no non-ASCII cased character in the host, no NFKC-sensitive netloc, bracketed hosts approximated) bounds the tie; (b) the older component-level theorems (normalized_hostname_agrees, fingerprinted_hostname_agrees, stems_agree_*_of_reparse) keep the parser as a parameter and their per-input hypotheses (hsame, hclean, hacc/hhost, ReparseOk), which (a) discharges on the class; they are still evaluated on every case (c07_true vs assumptions_hold, c07_host lines, the oracle)",
+    "CPython's urlsplit and SplitResult accessors: (a) string-level theorems (Props/C07Whole.lean: normalized_hostname_string, fingerprinted_hostname_string, bare_hostname_string, stems_agree_norm, stems_agree_fp, the *_stems_factor theorems) — the parser is the hand model Py/UrlSplit.lean + Py/UrlAccessors.lean + Py/Split.lean on BOTH sides of every equation (inside normalize_url / fingerprint_url, inside the helpers, and where the result string is parsed again after ensure_protocol); the three hand models of .hostname (Py/Split.lean, Py/UrlAccessors.lean, Model/C06Netloc.lean) are proved equal (pyHostname_eq, fingerprint_pyHostname_eq), hostOfModel is the hostname field of parseUrl (hostOfModel_of_parseUrl); the hand parser is compared with CPython on every run (c07_get_hostname, c07_model_host, c07_helper_model, c07_url_stems with model_parser, c07_stems with model_parser, normalize_whole, fingerprint_whole here; parse_url streams of C01/C02), not proved equal to it; its stated domain (no non-ASCII cased character in the host, no NFKC-sensitive netloc, bracketed hosts approximated) bounds the tie; (b) the older component-level theorems (normalized_hostname_agrees, fingerprinted_hostname_agrees, stems_agree_*_of_reparse) keep the parser as a parameter and their per-input hypotheses (hsame, hclean, hacc/hhost, ReparseOk), which (a) discharges on the class; they are still evaluated on every case (c07_true vs assumptions_hold, c07_host lines, the oracle)",
     "Py/UrlSplit.lean + Py/Split.lean: hand model of urlsplit and .hostname (CPython 3.12.1) used by bare_hostname_*, get_hostname_spec; compared with the real parser on every case inside the modelled alphabet (no bracketed host outside a fixed list, no non-ASCII character changed by lower())",
-    "attempt_to_decode_idna (CPython idna codec) is the parameter puny: arbitrary in the component-level theorems; the string-level ones assume PunyClean (the decoder brings in no URL delimiter, '%', control or white-space character) and, for the hostname equations, PunyLower (a lower-case label is decoded to a lower-case label: normalize_hostname does not lower-case what follows 'amp-' after decoding it, the .hostname accessor lower-cases what it reads off the result) — both evaluated on the real decoder over the enumerated ACE label class on every run",
+    "attempt_to_decode_idna (CPython idna codec) is the parameter puny: arbitrary (no law assumed) in the component-level theorems for an abstract parser (normHost_eq_normalizeHostname, normalized_/fingerprinted_hostname_agrees, bare_*, stems_agree_*_of_reparse); every theorem that goes through the printer / parser round trip — stems_agree_canon (which also needs a bracket-free netloc and a non-empty canonical netloc) and the string-level ones — assumes PunyClean (the decoder brings in no URL delimiter, '%', control or white-space character) and, for the hostname equations, PunyLower (a lower-case label is decoded to a lower-case label: normalize_hostname does not lower-case what follows 'amp-' after decoding it, the .hostname accessor lower-cases what it reads off the result) — both evaluated on the real decoder over the enumerated ACE label class on every run",
     "split_suffix / the suffix trie (C08) and the ISO country codes are parameters (Env) shared by both sides of every equation",
     "ASCII-exact model: str.lower on the model alphabet (DESIGN §4)",
 ]
